@@ -575,16 +575,22 @@ package client
 //@ func (*hSet).getHandlers
 //@   property C04
 //@   safety C02
+//@   attr lockcheck=C04
+//@   ghost V seqmap
 //@   requires setOK(hs)
+//@   requires [C04] setInv(hs, V)
 //@   modifies $held, $tr, elems(result)
 //@   ensures $held === old($held)
 //@   ensures $trlen == old($trlen) + 2 && $tr[old($trlen)] == ev("rlock", hs.RWMutex) && $tr[old($trlen)+1] == ev("runlock", hs.RWMutex)
 //@   ensures forall i int :: 0 <= i && i < len(result) ==> result[i] != nil
 //@   ensures len(result) == 0 || fresh(result)
+//@   ensures [C04] len(result) == len(V[sid(ev)]) && (forall i int :: 0 <= i && i < len(result) ==> result[i] == V[sid(ev)][i])
 //@   loop 0:
 //@     invariant forall i int :: 0 <= i && i < len(handlers) ==> handlers[i] != nil
 //@     invariant held(hs.RWMutex) == 2 && $held === upd(old($held), hs.RWMutex, 2)
 //@     invariant fresh(handlers)
+//@     invariant [C04] len(handlers) <= len(V[sid(ev)]) && (forall i int :: 0 <= i && i < len(handlers) ==> handlers[i] == V[sid(ev)][i])
+//@     invariant [C04] hn == (len(handlers) < len(V[sid(ev)]) ? V[sid(ev)][len(handlers)] : nil)
 //@ end
 
 // hSet.dispatch: one goroutine per handler of the snapshot, each counted on
@@ -597,7 +603,9 @@ package client
 //@   bind H []*hNode := call client.(*hSet).getHandlers 1
 //@   bind Hs seq := after client.(*hSet).getHandlers 1 seqof(H)
 //@   bind p0 int := after client.(*hSet).getHandlers 1 $trlen
+//@   ghost V seqmap
 //@   requires connInv(conn) && line != nil && setOK(hs)
+//@   requires [C04] setInv(hs, V)
 //@   modifies $tr, $wg, heap
 //@   ensures $held === old($held)
 //@   ensures p0 == old($trlen) + 2 && $tr[old($trlen)] == ev("rlock", old(hs.RWMutex))
@@ -608,6 +616,7 @@ package client
 //@        && $tr[p0 + 2*i + 1] == ev("spawn", fnid("client.(*hSet).dispatch$1"), "", 0, Hs[i])
 //@   ensures $tr[$trlen - 1] == ev("wgwait", wg)
 //@   ensures connInv(conn)
+//@   ensures [C04] len(Hs) == len(V[sid(lower(line.Cmd))]) && (forall i int :: 0 <= i && i < len(Hs) ==> Hs[i] == V[sid(lower(line.Cmd))][i])
 //@   loop 0:
 //@     invariant 0 <= #i && #i <= len(H) && $trlen == p0 + 2 * #i && wgcount(wg) == #i
 //@     invariant $held === old($held) && len(Hs) == len(H)
@@ -1062,3 +1071,116 @@ package client
 //@   ensures line.Nick == srv && !trkHas(old($trk), sid(line.Args[0])) ==> srvNick(conn, line.Args[0])
 //@   ensures line.Nick != srv ==> srvNick(conn, srv)
 //@ end
+
+// ---------------------------------------------------------------------------
+// C04: the handler set as a map from (lower-cased) event names to sequences
+// of nodes. V is the abstract view: V[sid(name)] is the sequence of nodes
+// registered under name, in registration order (empty when none).
+
+//@ pred listInv(l *hList, E seq) := len(E) >= 1 && l.start == E[0] && l.end == E[len(E)-1]
+//@     && (forall i int :: 0 <= i && i < len(E) ==> E[i] != nil && allocated(E[i])
+//@          && nodePrev(E[i]) == (i == 0 ? nil : E[i-1]) && nodeNext(E[i]) == (i == len(E)-1 ? nil : E[i+1]))
+//@     && (forall i int, j int :: 0 <= i && i < j && j < len(E) ==> E[i] != E[j])
+//@ specfn nodePrev(n *hNode) *hNode := n.prev
+//@ specfn nodeNext(n *hNode) *hNode := n.next
+//@ specfn nodeSet(n *hNode) *hSet := n.set
+//@ specfn nodeKey(n *hNode) int := sid(n.event)
+
+//@ pred setInv(hs *hSet, V seqmap) := hs != nil && hs.set != nil
+//@     && (forall k int :: has(dom(hs.set), k) ==> vals(hs.set)[k] != nil && allocated(vals(hs.set)[k]) && listInv(vals(hs.set)[k], V[k])
+//@            && (forall i int :: 0 <= i && i < len(V[k]) ==> nodeSet(V[k][i]) == hs && nodeKey(V[k][i]) == k))
+//@     && (forall k int :: !has(dom(hs.set), k) ==> len(V[k]) == 0)
+//@     && (forall k1 int, k2 int :: k1 != k2 && has(dom(hs.set), k1) && has(dom(hs.set), k2) ==> vals(hs.set)[k1] != vals(hs.set)[k2])
+
+//@ func handlerSet
+//@   property C04
+//@   safety C04
+//@   ensures result != nil && fresh(result) && held(result.RWMutex) == 0
+//@   ensures forall V seqmap :: (forall k int :: len(V[k]) == 0) ==> setInv(result, V)
+//@ end
+
+// add: the new node is appended to the sequence of lower(ev); every other
+// sequence, and every other node's handler, is unchanged.
+//@ func (*hSet).add
+//@   property C04
+//@   safety C04
+//@   attr lockcheck=C04
+//@   ghost V seqmap
+//@   let key := sid(lower(ev))
+//@   hint key, len(V[key]) - 1, len(V[key])
+//@   requires setInv(hs, V) && held(hs.RWMutex) == 0
+//@   modifies $held, $tr, entries(hs.set), hNode.next, hNode.prev, hNode.set, hNode.event, hNode.handler, hList.start, hList.end
+//@   ensures $held === old($held)
+//@   ensures hn != nil && fresh(hn) && result == ifaceof(hn) && hn.handler == h && hn.event == lower(ev) && hn.set == hs
+//@   ensures setInv(hs, upd(V, key, V[key] ++ [hn]))
+//@   ensures forall n *hNode :: n != hn && !fresh(n) ==> n.handler == old(n.handler) && n.event == old(n.event) && n.set == old(n.set)
+//@ end
+
+// remove(hn), hn being the p-th node of its event's sequence: that sequence
+// loses exactly position p (order of the rest preserved), the others are
+// untouched, and the list is dropped from the map iff it became empty.
+//@ func (*hSet).remove
+//@   property C04
+//@   safety C04
+//@   attr lockcheck=C04
+//@   ghost V seqmap
+//@   ghost p int
+//@   let key := sid(hn.event)
+//@   hint key, p, p - 1, p + 1, len(V[key]) - 1
+//@   requires setInv(hs, V) && held(hs.RWMutex) == 0 && hn != nil
+//@   requires 0 <= p && p < len(V[key]) && V[key][p] == hn
+//@   modifies $held, $tr, $log, entries(hs.set), hNode.next, hNode.prev, hNode.set, hList.start, hList.end
+//@   ensures $held === old($held)
+//@   ensures setInv(hs, upd(V, key, seqdel(V[key], p)))
+//@   ensures forall n *hNode :: n.handler == old(n.handler) && n.event == old(n.event)
+//@ end
+
+// Registration API: thin wrappers around add / remove.
+//@ func (*Conn).Handle
+//@   property C04
+//@   safety C04
+//@   ghost V seqmap
+//@   bind hn *hNode := ghost client.(*hSet).add 1 hn
+//@   requires conn != nil && setInv(conn.fgHandlers, V) && held(conn.fgHandlers.RWMutex) == 0
+//@   modifies $held, $tr, entries(conn.fgHandlers.set), hNode.next, hNode.prev, hNode.set, hNode.event, hNode.handler, hList.start, hList.end
+//@   ensures $held === old($held)
+//@   ensures fresh(hn) && result == ifaceof(hn) && hn.handler == h && setInv(conn.fgHandlers, upd(V, sid(lower(name)), V[sid(lower(name))] ++ [hn]))
+//@ end
+
+//@ func (*Conn).HandleBG
+//@   property C04
+//@   safety C04
+//@   ghost V seqmap
+//@   bind hn *hNode := ghost client.(*hSet).add 1 hn
+//@   requires conn != nil && setInv(conn.bgHandlers, V) && held(conn.bgHandlers.RWMutex) == 0
+//@   modifies $held, $tr, entries(conn.bgHandlers.set), hNode.next, hNode.prev, hNode.set, hNode.event, hNode.handler, hList.start, hList.end
+//@   ensures $held === old($held)
+//@   ensures fresh(hn) && result == ifaceof(hn) && hn.handler == h && setInv(conn.bgHandlers, upd(V, sid(lower(name)), V[sid(lower(name))] ++ [hn]))
+//@ end
+
+//@ func (*Conn).handle
+//@   property C04, C05
+//@   safety C04
+//@   ghost V seqmap
+//@   bind hn *hNode := ghost client.(*hSet).add 1 hn
+//@   requires conn != nil && setInv(conn.intHandlers, V) && held(conn.intHandlers.RWMutex) == 0
+//@   modifies $held, $tr, entries(conn.intHandlers.set), hNode.next, hNode.prev, hNode.set, hNode.event, hNode.handler, hList.start, hList.end
+//@   ensures $held === old($held)
+//@   ensures fresh(hn) && result == ifaceof(hn) && hn.handler == h && setInv(conn.intHandlers, upd(V, sid(lower(name)), V[sid(lower(name))] ++ [hn]))
+//@ end
+
+//@ func (*hNode).Remove
+//@   property C04
+//@   safety C04
+//@   ghost V seqmap
+//@   ghost p int
+//@   requires hn != nil && hn.set != nil && setInv(hn.set, V) && held(hn.set.RWMutex) == 0
+//@   requires 0 <= p && p < len(V[sid(hn.event)]) && V[sid(hn.event)][p] == hn
+//@   modifies $held, $tr, $log, entries(hn.set.set), hNode.next, hNode.prev, hNode.set, hList.start, hList.end
+//@   ensures $held === old($held)
+//@   ensures setInv(old(hn.set), upd(V, sid(hn.event), seqdel(V[sid(hn.event)], p)))
+//@ end
+
+// State handlers are registered in the internal set and nowhere else (C05).
+//@ closure [C05] callers (*Conn).addSTHandlers in (*Conn).EnableStateTracking
+//@ closure [C05] field_access Conn.stRemovers in (*Conn).addSTHandlers, (*Conn).delSTHandlers, Client
